@@ -367,15 +367,14 @@ def fractional(prog: Program, rep: Report) -> None:
             res, samples, it, dom = roms.velocity_samples(prog, reversal=rev, frac=NF.const(c))
             sign = -1 if rev else 1
             got = {}
-            for s in samples:
-                fn = s.field_nf
-                if isinstance(fn, Ref):
-                    fn = NF.atom(fn.path)
-                if not isinstance(fn, NF):
-                    rep.bad(rule, vel.qual, f"fractional_step={c}, reversal={rev}", f"sampled field depends on a run-time branch: {vtext(fn)}", vel.loc())
+            for fn in roms.effective_fields(res, samples, it):
+                if fn is None:
                     continue
                 comp = "u" if any("'u'" in a or "'dU'" in a for a in fn.atoms()) else "v"
                 got[comp] = fn
+            for s in samples:
+                if not isinstance(s.field_nf, (NF, Ref)):
+                    rep.bad(rule, vel.qual, f"fractional_step={c}, reversal={rev}", f"sampled field depends on a run-time branch: {vtext(s.field_nf)}", vel.loc())
             for comp, d in (("u", "dU"), ("v", "dV")):
                 want = sign * (NF.atom(f"forcing.fields['{comp}']") + NF.const(c) * NF.atom(f"forcing.fields['{d}']"))
                 g = got.get(comp)
@@ -452,6 +451,13 @@ def run(prog: Program, rep: Report, tier: str) -> None:
     rep.rule("R03.5", "velocity(fractional_step=c) samples u + c*dU for every c the schemes use; sign flipped when reversed", 7)
     rep.rule("R03.6", "scalar fields are read at the step of the frame held (hand-over step / prestep)", 4)
     rep.rule("R03.7", "forcing_steps: step -> (file, frame) tables built in the same iteration from consecutive entries of steps", 5)
+    rep.rule("R03.8", "the forcing is advanced exactly once in every model step, on every path of Model.update (shared with C19 R19.1)", 2)
+    from . import c19
+
+    sub = Report(pid="C03")
+    c19.step_word_analysis(prog, sub)
+    for o in sub.obligations:
+        rep.add("R03.8", o.func, f"[{o.rule}] {o.construct}", o.verdict == "ok" if o.verdict != "undecided" else None, o.what, o.loc)
     file_selection(prog, rep)
     handover_invariant(prog, rep)
     sorted_steps(prog, rep)
